@@ -314,3 +314,22 @@ fn u16_5_raw1_alpha_plane_length() {
     assert!(blk_raw1_alpha_len_blp1(&h, n) == want, "locator reader: alpha plane = ceil(pixels * depth / 8) bytes");
     assert!(blk_raw1_alpha_len_blp0(&h, n) == want, "BLP0 reader: alpha plane = ceil(pixels * depth / 8) bytes");
 }
+
+
+// a DXT level is stored as whole 4x4 blocks, each dimension rounded up separately: the reader expects exactly the byte
+// count the encoder emits (ceil(w/4) * ceil(h/4) * block size), for every header and level, without overflow (F31)
+// @harness unit=U16.6 props=C16,C05 kind=complete timeout=600 target="parser/direct/blp2.rs: parse_dxtn expected level size (E11 block), all dimensions / levels / DXT kinds" oracle=blp_header
+#[kani::proof]
+#[kani::unwind(4)]
+#[kani::stub(alloc::fmt::format, stub_format)]
+fn u16_6_dxtn_level_bytes() {
+    let h = any_header(2);
+    let i: usize = kani::any();
+    kani::assume(i < 16);
+    let k: u8 = kani::any();
+    let (fmt, bs) = match k % 3 { 0 => (DxtnFormat::Dxt1, 8u128), 1 => (DxtnFormat::Dxt3, 16u128), _ => (DxtnFormat::Dxt5, 16u128) };
+    let (w, hh) = h.mipmap_size(i);
+    let want = ((w as u128 + 3) / 4) * ((hh as u128 + 3) / 4) * bs;
+    let got = blk_dxtn_level_bytes(&h, fmt, i);
+    assert!(want > usize::MAX as u128 || got as u128 == want, "expected level size = ceil(w/4) * ceil(h/4) * block size");
+}
